@@ -239,6 +239,18 @@ PROPS["C13"] = {
     "rule": "case = one handle history or one abort history; distinct_nontrivial counts (handles, first-closed) and (writers, aborters, socket mode, yield level, deadline-log shape) classes",
     "assumptions": ["a write deadline left in the past makes later writes fail (as on a kernel socket)"],
 }
+PROPS["C18"] = {
+    "parts": [part("TestVerifC18", q=8, t=16, tq=900)],
+    "level": "exploration",
+    "engine": "E4 lifecycle",
+    "technique": "reference-model monitor over real gather cycles on a fake transport.Net: published candidates and opened sockets compared with a reference set computed from (configuration, interface table, effective mDNS mode, mux presence); cycle-control assertions; Restart race with seeded pauses at hook H2",
+    "level_text": "Generated configurations: candidate types {host, host+srflx, srflx}, network types (nil, empty, udp4, udp6, both, with tcp4), port ranges (none, 1-4 ports, wide), interface and IP deny filters, loopback flag, all mDNS modes, UDP mux (specific / unspecified); "
+                  "interface tables with 1-4 interfaces (up, down, loopback) over 12 addresses incl. link-local, site-local fec0::/10, IPv4-compatible, ULA, 169.254/16. Soundness of every published candidate and of every socket the agent opened, completeness of host candidates, "
+                  "New->Gathering->Complete, refused second call, exactly one nil; Restart racing a running cycle.",
+    "level_note": "Relay and TCP-mux gathering are exercised under C09, not here. Completeness is asserted for UDP host candidates the agent listens for itself (no mux, mDNS not in gather mode).",
+    "rule": "case = one configuration x one gather cycle; distinct_nontrivial counts distinct (types, network types, port range, filters, loopback, effective mDNS, mux, #eligible, #published) classes",
+    "assumptions": ["effective mDNS mode is read from the agent after construction (opportunistic mDNS may fall back to disabled)"],
+}
 PROPS["C05"] = {
     "parts": [part("TestVerifC05", q=8, t=16, tq=900)],
     "level": "exploration",
@@ -263,6 +275,8 @@ ENGINES.append({"name": "E2 loopmon + E3 apihammer", "path": "harness/taskloop/v
                 "kind_free_text": "instrumented task-loop histories and public-API hammering under the race detector; offline porcupine check"})
 ENGINES.append({"name": "E5 muxmon", "path": "harness/ice/vfc12.go, vfc13.go", "serves_properties": ["C12", "C13"],
                 "kind_free_text": "UDPMuxDefault / shared conns over a fake shared socket fed by the harness; reference routing table; abort-protocol stress"})
+ENGINES.append({"name": "E4 lifecycle", "path": "harness/ice/vfc08.go, vfc09.go, vfc11.go, vfc18.go", "serves_properties": ["C08", "C09", "C11", "C18"],
+                "kind_free_text": "scripted agent lifetimes over the tallying fake Net (every socket open/close), fake STUN server with held replies, fake TURN client, fault-injecting sockets"})
 
 # properties without a check yet (kept current by hand)
 NOT_YET = {}
